@@ -258,6 +258,8 @@ type delivery struct {
 	module.Delivery
 	// Recipient addresses this delivery object is used for, original values (not modified by RewriteRcpt).
 	recipients []string
+	// Set by BodyNonAtomic if Body failed for this target.
+	bodyFailed bool
 }
 
 type msgpipelineDelivery struct {
@@ -520,6 +522,8 @@ func (dd *msgpipelineDelivery) BodyNonAtomic(ctx context.Context, c module.Statu
 		}
 
 		if err := delivery.Body(ctx, header, body); err != nil {
+			// The target refused the message, it must not be committed there.
+			delivery.bodyFailed = true
 			for _, rcpt := range delivery.recipients {
 				c.SetStatus(rcpt, err)
 			}
@@ -541,6 +545,14 @@ func (dd msgpipelineDelivery) Commit(ctx context.Context) error {
 	// have been told about success already (LMTP per-recipient statuses).
 	var commitErr error
 	for _, delivery := range dd.deliveries {
+		if delivery.bodyFailed {
+			// BodyNonAtomic: Body failed for this (non-partial) target, its
+			// recipients were told so already.
+			if err := delivery.Abort(ctx); err != nil {
+				dd.log.Error("target.Abort failure", err, delivery.recipients)
+			}
+			continue
+		}
 		if err := delivery.Commit(ctx); err != nil && commitErr == nil {
 			commitErr = err
 		}
